@@ -87,6 +87,16 @@ func (fr *frame) call(ci ssa.CallInstruction, res ssa.Value, st *State, reach st
 		return
 	}
 	c := g.db.Contracts[key]
+	// a contract specialised for the dynamic type of an interface argument takes precedence
+	for _, a := range args {
+		if a.DynT != nil {
+			if c2 := g.db.Contracts[key+"@"+a.DynT.String()]; c2 != nil && !ft.verifyingSpec(c2) {
+				c2.Used = true
+				setRes(fr.modular(c2.Key, c2, callee, sig, args, st, reach))
+				return
+			}
+		}
+	}
 	if callee != nil && callee.Synthetic != "" && c == nil && len(callee.Blocks) > 0 {
 		// wrappers (pointer-receiver wrappers, bound methods, thunks): always inline
 		setRes(fr.inline(callee, c, args, com, st, reach))
@@ -174,6 +184,11 @@ func (fr *frame) modular(key string, c *Contract, callee *ssa.Function, sig *typ
 	env := &Env{ft: ft, vars: map[string]SV{}, st: st, old: st, file: c.File, bound: map[string]bool{}}
 	if callee != nil && callee.Pkg != nil {
 		env.pkg = callee.Pkg.Pkg
+	}
+	if c.SpecDyn != nil {
+		if fp := g.filePkg(c.File); fp != nil {
+			env.pkg = fp
+		}
 	}
 	// parameter names: receiver first
 	var pnames []string
@@ -615,3 +630,6 @@ func isGeneratedPB(g *Gen, fn *ssa.Function) bool {
 	f := g.prog.Fset.Position(pos).Filename
 	return strings.HasSuffix(f, ".pb.go") || strings.HasSuffix(f, ".pb.gw.go")
 }
+
+// verifyingSpec: while a specialised contract is being verified, calls to the same function are not cut by it.
+func (ft *FT) verifyingSpec(c *Contract) bool { return ft.c == c }
